@@ -25,7 +25,7 @@ chk("C05","fault_enumeration","fault enumeration: every conflict-edit kind x ser
  "For each sampled base the (edit kind x pair x permutation) space is enumerated completely: conflicts must be rejected with an error in every order, bases accepted with identical facts and Node routes in every order.",
  "Trusted: each edit introduces exactly one conflict (fresh names); gqlparser loads each edited service SDL.","DESIGN.md §5 C05")
 chk("C06","fault_enumeration","offline exactly-once checker over the recorded downstream event log, with single-fault injection addressed by call index",
- "Held on the executions explored: each mutation root key reached its owner in exactly one mutation request per client request, also with a downstream fault at each sampled call index, with batching limits 1/2/3000 and repeated requests through the plan cache.",
+ "Held on the executions explored: each mutation root key reached its owner in exactly one mutation request per client request, also with a downstream fault at each sampled call index, with batching limits 1/2/3000, repeated requests through the plan cache, concurrent copies, and transport faults on kept-alive connections of a real net/http transport.",
  "Trusted: fake-service event log (append under mutex before answering); log segmentation by client call.","DESIGN.md §5 C06")
 chk("C12","exploration","offline call-count checker over the recorded downstream event log vs plan shape; differential data check",
  "Held on the executions explored: per service, HTTP calls carrying fewer requests than the batch limit (C11's chunking) <= plan levels for list lengths 1..300 with heavy entity duplication (answers up to 40 000 objects); no duplicate {id} lookups inside one batch; answers equal the reference.",
@@ -35,9 +35,9 @@ chk("C07","exploration","hostile-input runtime monitoring in isolated child proc
  "Held on the hostile requests explored (byte-level, JSON shapes, multipart layouts, corner-case operations): handler returned, no panic or process death, well-formed JSON with data/errors, 422 iff undecodable and 200 iff decodable per the independent decoder, invalid operations rejected with data:null, canary answered correctly afterwards.",
  "Trusted: independent decoder in c07.go; ambiguous inputs are only checked for well-formedness and liveness.","DESIGN.md §5 C07")
 chk("C08","exploration","differential runtime monitor (batch element vs the same operation alone) under gated completion orders and hook jitter, with the Go race detector as a verdict",
- "Held on the batches explored: N results in order, each equal to the single-request answer (errors as multisets) for mixes of valid/invalid/failing/slow operations under permuted completion orders; no data race with a pebbles frame.",
+ "Held on the batches explored: N results in order, each equal to the single-request answer (errors as multisets), the multiset of sub-requests received by the services equal to that of the single runs, for mixes of valid/invalid/failing/slow operations under permuted completion orders; no data race with a pebbles frame.",
  "Trusted: deterministic fake services with content-keyed faults and gates.","DESIGN.md §5 C08")
-chk("C09","fault_enumeration","single-fault enumeration (call index x fault kind x position) with crash/shape/provenance/canary/goroutine monitors over recorded downstream answers",
+chk("C09","fault_enumeration","single-fault enumeration (call index x fault kind x position; transport faults also over a real net/http transport with fresh and kept-alive connections) with crash/shape/provenance/canary/goroutine/answer-body monitors over recorded downstream answers",
  "For each sampled operation the single-fault space (<= 6 calls x all fault kinds x first/last/all) is enumerated completely, plus sampled two-fault sequences and batch siblings: no panic/death/hang, failure signals reported, every data leaf came from a service, other operations and later requests unaffected.",
  "Trusted: fake transport's fault injector and its log of bodies actually sent.","DESIGN.md §5 C09")
 chk("C10","exploration","offline checker over the downstream event log (zero events for invalid operations) and error-fidelity oracle on injected GraphQL error payloads",
@@ -45,7 +45,7 @@ chk("C10","exploration","offline checker over the downstream event log (zero eve
  "Trusted: gqlparser validation against the captured merged schema to decide that a mutant is invalid.","DESIGN.md §5 C10")
 
 chk("C11","fault_enumeration","exhaustive small-scope enumeration (N x m x completion order x failing chunk x kind) of the real MultiOpQueryer over a recording, gated RoundTripper; race detector as a verdict",
- "The (N, m, order, failing chunk, kind) space within the stated bounds is enumerated completely: N results in request order, each request in exactly one call, no call above m, an error and nil result when a call fails, under every completion order of <= 4 chunks (sampled beyond).",
+ "The (N, m, order, failing chunk, kind) space within the stated bounds is enumerated completely: N results in request order, each request in exactly one call, no call above m, an error and nil result when a call fails (as many errors as failed calls, also when every call fails), under every completion order of <= 4 chunks (sampled beyond); benign answer wordings (empty errors list, 207) and self-repeating request lists change nothing; every answer body is read or closed.",
  "Trusted: the gate (releases a call only when all chunk calls are pending); watchdog expiry only weakens ordering control.","DESIGN.md §5 C11")
 chk("C13","exploration","repeat-and-compare runtime monitor: canonical plans over 30 plannings, responses and downstream multisets over repeated requests on one and on fresh gateways, under hook jitter and varied service delays; race detector as a verdict",
  "Held on the operations explored (full feature profile, plain and caching planner, with concurrently failing steps): identical canonical plans, identical data, equal error multisets, identical per-service sub-request multisets.",
@@ -67,11 +67,11 @@ chk("C16","exploration","differential runtime monitor: gateway introspection ans
  "Trusted: reference engine's introspection; list order treated as insignificant.","DESIGN.md §5 C16")
 
 chk("C19","exploration","round-trip runtime monitor over generated multipart layouts: parts re-parsed at the fake services + reference differential with content-derived upload markers; race detector as a verdict",
- "Held on the layouts explored (single/batched, placeholders at top-level/list/nested positions, files bound to one or several paths, one variable feeding fields of several services): every bound file arrived at the owning service under the same path with the same name and bytes, no stray parts, responses equal the reference, no data race.",
+ "Held on the layouts explored (single/batched, placeholders at top-level/list/nested positions, files bound to one or several paths, one variable feeding fields of several services): every bound file arrived at the owning service under the same path with the same name and bytes (also a file containing the delimiter of the previous forwarded request, a 1.3 MiB file feeding two fields, a service behind a 307), no stray parts, responses equal the reference, GraphQL errors on the multipart sub-request reach the client, no data race.",
  "Trusted: harness multipart decoder at the services; marker substitution on both sides.","DESIGN.md §5 C19")
 
 chk("C17","exploration","offline sequence checker over recorded client frames and upstream emit logs (unique marker + event number per event), payload differential against the reference; strict frame parser; race detector as a verdict",
- "Held on the scenarios explored (1-3 connections x 1-3 concurrent subscriptions, scripted upstreams with pauses / errors / complete / error frame): each subscription's data frames are exactly the emitted events in order with fully stitched payloads, nothing under a foreign id, upstream errors forwarded, all frames well formed.",
+ "Held on the scenarios explored (1-3 connections x 1-3 concurrent subscriptions, scripted upstreams with pauses / errors / complete / error frame): each subscription's data frames are exactly the emitted events in order with fully stitched payloads, nothing under a foreign id, upstream errors forwarded, all frames well formed, and per service at most (events forwarded x plan levels) batched calls.",
  "Trusted: loopback websocket upstream that validates start payloads; quiescence by bounded wait (inconclusive on watchdog).","DESIGN.md §5 C17")
 
 chk("C18","exploration","stress + directed hook schedules over client/upstream action histories with process-liveness, strict frame parser, upstream-connection-closed, goroutine-leak monitors and the race detector",
